@@ -156,7 +156,9 @@ def _keys_for(src, tgt):
     if src == "o2j":
         return (7,)
     if src == "qua":
-        return QUA_KEYCOUNTS
+        # (26) a Quaver SOURCE may also declare Keys8 (the mode the library lists as "not officially supported yet" but reads); only towards osu,
+        # whose key count is free - no target of the suite is asked to WRITE Keys8
+        return QUA_KEYCOUNTS + ((8,) if tgt == "osu" else ())
     if tgt == "qua":
         return QUA_KEYCOUNTS
     if src == "sm" or tgt == "sm":
@@ -593,7 +595,7 @@ def build_qua(case):
         if sparse and k != "Mode" and rs.random() < 0.4:
             continue  # every key but the mode may be left out (A5 defaults)
         if k == "Mode":
-            v = "Keys4" if chart["keys"] == 4 else "Keys7"
+            v = "Keys%d" % chart["keys"]
         elif k == "Tags":
             v = "tag1 tag2"
         elif k in QUA_TEXT_KEYS:
